@@ -719,6 +719,8 @@ func (c *converter) addDefaultHostBackend(source *annotations.Source, fullSvcNam
 	match := hatypes.MatchBegin
 	if fr := c.haproxy.Hosts().FindHost(hostname); fr != nil {
 		if fr.FindPath(uri, match) != nil {
+			// track the host anyway, this ingress might own the path after the current owner is removed
+			c.tracker.TrackNames(source.Type, source.FullName(), convtypes.ResourceHAHostname, hostname)
 			return fmt.Errorf("path %s was already defined on default host", uri)
 		}
 	}
